@@ -25,6 +25,7 @@ def run(prog, chk):
     R.exclusive_guard(prog, chk, "C09.h")
     R.own_payload_after_release(prog, chk, "C09.j")
     R.argument_after_release(prog, chk, "C09.k")
+    R.increment_is_kept(prog, chk, "C09.l")
     # (h) for every String member, not just detach/clear: no in-place write to the text block of a possibly shared payload
     from . import c06
 
